@@ -3,6 +3,7 @@ CONSTANTS
   Vouchers = {"va", "vb"}
   AmtClasses = {"1", "2", "garbage"}
   RecvClasses = {"user", "blocked"}
+  NatMax = 1
   BackDenoms = {"va"}
   HookReturnsAck = TRUE
 INVARIANTS AckAlwaysCommitted SuccessAcked Backed NonNegative
